@@ -1,4 +1,5 @@
 // C07: the Reader pipeline always terminates and reports the first error to the caller (fault enumeration).
+#include "tmpdir.hpp"
 #include "readerlab.hpp"
 
 #include <dirent.h>
@@ -148,7 +149,7 @@ static void prop(Src& s) {
                              (ending == 0 ? " close()" : ending == 1 ? " destructor" : " close()x2") + " " + p.str();
     if (vp::want_desc()) vp::describe(what);
 
-    static const std::string path = "/dev/shm/verif-c07-" + std::to_string(getpid());
+    static const std::string path = tmpdir::prefix() + "c07-" + std::to_string(getpid());
     if (from_file) {
         std::ofstream f(path, std::ios::binary | std::ios::trunc);
         f.write(bytes.data(), static_cast<std::streamsize>(bytes.size()));
@@ -321,7 +322,7 @@ static void prop_close_stops_reading(Src& s, int forced_fmt = -1) {
     // a file that takes a while to parse: many objects, so that the pipeline is still busy when the consumer closes the Reader
     filegen::Made m = filegen::small_file(s, fmt, 6000, false, 3000 + s.draw(3000));
     Pipeline p = lab::gen_pipeline(s);
-    static const std::string path = "/dev/shm/verif-c07b-" + std::to_string(getpid());
+    static const std::string path = tmpdir::prefix() + "c07b-" + std::to_string(getpid());
     {
         std::ofstream f(path, std::ios::binary | std::ios::trunc);
         f.write(m.bytes.data(), static_cast<std::streamsize>(m.bytes.size()));
@@ -373,7 +374,7 @@ VP_BUILTIN(F29_pbf_fd_leak_on_error) {
     // a PBF file on disk whose first data blob cannot be decoded, and one that is cut off inside the header blob
     vp::Src s{4711};
     filegen::Made m = filegen::small_file(s, 0, 8, false, 3);
-    static const std::string path = "/dev/shm/verif-c07c-" + std::to_string(getpid());
+    static const std::string path = tmpdir::prefix() + "c07c-" + std::to_string(getpid());
     for (size_t cut : {m.bytes.size() / 2, static_cast<size_t>(11), static_cast<size_t>(0)}) {
         {
             std::ofstream f(path, std::ios::binary | std::ios::trunc);
